@@ -203,8 +203,33 @@ class Ob:
         self.key = None
 
 
-def collect(F, fn_path, tag="", inline_pred=None, facts_hook=None, loop_k=1):
-    """Obligations of one function.  Returns (list of Ob with stable keys, stats)."""
+def owner_fn(F, path, stop=None):
+    """Function an obligation is attributed to: closures belong to their parent, and a private function with a single
+    calling function belongs to that caller (a block extracted into a helper keeps its identity)."""
+    cm = conn.callers_map(F)
+    seen = set()
+    while path not in seen:
+        seen.add(path)
+        g = F.fns.get(path)
+        if g is None or path == stop:
+            return path
+        if g.get("kind") == "Closure" and g.get("parent"):
+            path = g["parent"]
+            continue
+        if g.get("pub"):
+            return path
+        cs = {c for c in cm.get(path, set()) if c != path}
+        if len(cs) == 1:
+            path = next(iter(cs))
+            continue
+        return path
+    return path
+
+
+def collect(F, fn_path, tag="", inline_pred=None, facts_hook=None, loop_k=1, rename=None):
+    """Obligations of one function.  Returns (list of Ob with stable keys, stats).
+    rename: optional field-name -> role-name map applied to the operand descriptions in keys."""
+    rename = rename or {}
     if inline_pred is not None:
         ex = explore.Explorer(F, inline_pred=inline_pred, loop_k=loop_k)
         ps = ex.run(fn_path)
@@ -253,7 +278,7 @@ def collect(F, fn_path, tag="", inline_pred=None, facts_hook=None, loop_k=1):
             return producer(("sym", t[1]) if not (isinstance(t[1], tuple) and t[1] and t[1][0] in ("sym", "c", "agg", "ref")) else t[1], depth + 1)
         if t[0] == "init":
             names = [str(el[2]) for el in t[2] if el[0] == "f" and len(el) > 2 and el[2] is not None]
-            return names[-1] if names else (t[1][1] if t[1][0] == "arg" else t[1][0])
+            return rename.get(names[-1], names[-1]) if names else (t[1][1] if t[1][0] == "arg" else t[1][0])
         if t[0] == "arg":
             return str(t[1])
         if t[0] == "bin":
@@ -348,16 +373,20 @@ def collect(F, fn_path, tag="", inline_pred=None, facts_hook=None, loop_k=1):
         # operand, so that adding or removing an unrelated site in the same function does not renumber them
         d = getattr(o, "detail", None)
         desc = o.desc + ("(%s)" % d if (d and o.status != "discharged") else "")
-        base = (o.fn, o.kind, desc, o.status == "discharged")
+        base = (owner_fn(F, o.fn, fn_path) if o.status != "discharged" else o.fn, o.kind, desc, o.status == "discharged")
         n = counts.get(base, 0)
         counts[base] = n + 1
         bo = (o.fn, o.kind, o.desc)
         no = counts_old.get(bo, 0)
         counts_old[bo] = no + 1
+        bprev = (o.fn, o.kind, desc, o.status == "discharged")
+        nprev = counts_old.get(bprev, 0)
+        counts_old[bprev] = nprev + 1
+        o.key_prev = "%s|%s|%s|#%d" % (short_fn(fn_path if o.kind == "panic" else o.fn), o.kind, desc, nprev)
         o.key_old = "%s|%s|%s|#%d" % (short_fn(o.fn), o.kind, o.desc, no)
         # an explicit panic is identified by the entry point it is reachable from and the enum-valued conditions under
         # which it is reached, not by the (possibly private helper) function that contains it
-        where = fn_path if o.kind == "panic" else o.fn
+        where = fn_path if o.kind == "panic" else owner_fn(F, o.fn, fn_path)
         o.key = "%s|%s|%s|#%d" % (short_fn(where), o.kind, desc, n) if o.status != "discharged" else o.key_old
     return obs, {"paths": len(ps)}
 
